@@ -12,6 +12,7 @@ CONSTANTS
   CSloppy = FALSE
   ResetOnClose = TRUE
   StaleDec = TRUE
+  KeepEntries = TRUE
   Dev = "none"
   MaxLen = 0
   Bursts = {}
